@@ -35,8 +35,21 @@ TxtTE == [t |-> 16, strs |-> << <<116>>, <<>> >>]                 \* "t" ""
 NsNB  == [t |-> 2, name |-> NB]
 NsNX  == [t |-> 2, name |-> NX]
 MxNA  == [t |-> 15, pref |-> 10, name |-> NA]
+\* SVCB / HTTPS: priority, target, an *ordered* list of parameters as written
+\* (key text, value text) and the wire form (ascending keys) it denotes
+P(k, v) == [k |-> k, v |-> v]
+SvcbA == [t |-> 64, pref |-> 1, name |-> NB,
+          params |-> << P(<<97, 108, 112, 110>>, <<104, 50, 44, 104, 51>>),          \* alpn=h2,h3
+                        P(<<112, 111, 114, 116>>, <<52, 52, 51>>),                      \* port=443
+                        P(<<107, 101, 121, 54, 53, 50, 56, 48>>, <<97, 98, 99>>) >>,   \* key65280=abc
+          pwire |-> <<0, 1, 0, 6, 2, 104, 50, 2, 104, 51,  0, 3, 0, 2, 1, 187,  255, 0, 0, 3, 97, 98, 99>>]
+HttpsB == [t |-> 65, pref |-> 16, name |-> NO,
+           params |-> << P(<<112, 111, 114, 116>>, <<56, 52, 52, 51>>),                \* port=8443
+                         P(<<97, 108, 112, 110>>, <<104, 51>>) >>,                      \* alpn=h3
+           pwire |-> <<0, 1, 0, 3, 2, 104, 51,  0, 3, 0, 2, 32, 251>>]
 RdWire(rd) ==
-  IF rd.t = 16 THEN Concat([i \in 1..Len(rd.strs) |-> <<Len(rd.strs[i])>> \o rd.strs[i]])
+  IF rd.t \in {64, 65} THEN EncU16(rd.pref) \o WireOf(rd.name) \o rd.pwire
+  ELSE IF rd.t = 16 THEN Concat([i \in 1..Len(rd.strs) |-> <<Len(rd.strs[i])>> \o rd.strs[i]])
   ELSE IF rd.t = 2 THEN WireOf(rd.name)
   ELSE EncU16(rd.pref) \o WireOf(rd.name)
 
@@ -53,6 +66,7 @@ Entries == {
   [k |-> "include", path |-> <<102, 32, 103>>],                  \* f g
   Rec(NA, 3600, TxtQR), Rec(NA, 5, NsNB), Rec(NO, 3600, MxNA),
   Rec(NSP, 5, TxtTE), Rec(NAX, 7, NsNX), Rec(NB, 7, TxtT),
+  Rec(NA, 3600, SvcbA), Rec(NB, 5, HttpsB),
   Lit(LitEmptyLabel), Lit(LitBigTtl), Lit(LitNoData) }
 
 --------------------------------------------------------------------------
@@ -124,13 +138,28 @@ Wrap(s, toks) ==
        [] s = 3 -> <<LPAR>> \o j(<<SP, LPAR, LF, RPAR>>) \o <<RPAR>>
 TokStyle(s) == CASE s = 0 -> 0 [] s = 1 -> 1 [] s = 2 -> 2 [] s = 3 -> 0
 
+\* a parameter in three spellings: key=value, key="value", "key=value";
+\* which one depends on the style and the position, so every separator of a
+\* style meets every spelling
+ParamTok(p, sp) ==
+  CASE sp = 0 -> p.k \o <<61>> \o p.v
+    [] sp = 1 -> p.k \o <<61, QUOTE>> \o p.v \o <<QUOTE>>
+    [] sp = 2 -> <<QUOTE>> \o p.k \o <<61>> \o p.v \o <<QUOTE>>
+\* spelling of the i-th parameter in style s: every separator kind meets an
+\* unquoted parameter followed by a wholly quoted one (0 -> 2), and the other
+\* successions occur in some style
+ParamSpelling(s) == CASE s = 0 -> <<0, 2, 1>> [] s = 1 -> <<1, 0, 2>> [] s = 2 -> <<0, 2, 0>> [] s = 3 -> <<0, 1, 2>>
 RdToks(rd, origin, nform, s) ==
-  IF rd.t = 16 THEN [i \in 1..Len(rd.strs) |-> StrTok(rd.strs[i], TokStyle(s))]
+  IF rd.t \in {64, 65}
+  THEN <<DecDigits(rd.pref), NameText(rd.name, nform, origin, TokStyle(s))>>
+       \o [i \in 1..Len(rd.params) |-> ParamTok(rd.params[i], ParamSpelling(s)[i])]
+  ELSE IF rd.t = 16 THEN [i \in 1..Len(rd.strs) |-> StrTok(rd.strs[i], TokStyle(s))]
   ELSE IF rd.t = 2 THEN <<NameText(rd.name, nform, origin, TokStyle(s))>>
   ELSE <<DecDigits(rd.pref), NameText(rd.name, nform, origin, TokStyle(s))>>
 \* '@' is special only in the owner position
 RdNameForms(rd, origin) == IF rd.t = 16 THEN {"abs"} ELSE (NameForms(rd.name, origin) \ {"at"})
 TypeTok(t, s) == LET n == CASE t = 16 -> <<84, 88, 84>> [] t = 2 -> <<78, 83>> [] t = 15 -> <<77, 88>>
+                              [] t = 64 -> <<83, 86, 67, 66>> [] t = 65 -> <<72, 84, 84, 80, 83>>
                  IN IF s = 1 THEN [i \in 1..Len(n) |-> n[i] + 32]           \* lower case
                     ELSE IF s = 3 THEN <<84, 89, 80, 69>> \o DecDigits(t)    \* TYPEnn
                     ELSE n
